@@ -31,16 +31,16 @@ theorem skipText_split : ∀ (evs : List Ev), ∃ pre, evs = pre ++ skipText evs
   | .stop n :: r => ⟨[], by simp [skipText]⟩
   | .bad e :: r => ⟨[], by simp [skipText]⟩
 
-theorem expectStart_ok {name : Bytes} {evs r : List Ev} (h : expectStart name evs = .ok r) :
-    ∃ pre a, evs = pre ++ .start name a :: r ∧ pre.all Ev.isText = true := by
+theorem expectStart_ok {name a : Bytes} {evs r : List Ev} (h : expectStart name evs = .ok (a, r)) :
+    ∃ pre, evs = pre ++ .start name a :: r ∧ pre.all Ev.isText = true := by
   obtain ⟨pre, h1, h2⟩ := skipText_split evs
   unfold expectStart at h
   split at h
-  · rename_i n a r' heq
+  · rename_i n a' r' heq
     split at h
     · rename_i hn
       cases h
-      exact ⟨pre, a, by rw [heq, hn] at h1; exact h1, h2⟩
+      exact ⟨pre, by rw [heq, hn] at h1; exact h1, h2⟩
     · cases h
   all_goals cases h
 
@@ -73,15 +73,16 @@ theorem decodeDoc_named_ok (X : Ext) {root : Bytes} {s : Sch} {evs : List Ev} {v
     (h : decodeDoc X (.named root) s evs = .ok v) :
     ∃ pre a body post mid tail,
       evs = pre ++ .start root a :: body ∧ pre.all Ev.isText = true ∧
-      decode X s body = .ok (v, post) ∧
+      decode X s a body = .ok (v, post) ∧
       post = mid ++ .stop root :: tail ∧ mid.all Ev.isText = true ∧ tail.all Ev.isText = true := by
   unfold decodeDoc at h
   simp only at h
   cases h1 : expectStart root evs with
   | error e => simp [h1] at h
-  | ok r =>
+  | ok ar =>
+    obtain ⟨a, r⟩ := ar
     simp only [h1] at h
-    cases h2 : decode X s r with
+    cases h2 : decode X s a r with
     | error e => simp [h2] at h
     | ok p =>
       obtain ⟨v', r'⟩ := p
@@ -95,17 +96,29 @@ theorem decodeDoc_named_ok (X : Ext) {root : Bytes} {s : Sch} {evs : List Ev} {v
         | ok u =>
           simp only [h4] at h
           cases h
-          obtain ⟨pre, a, he, hp⟩ := expectStart_ok h1
+          obtain ⟨pre, he, hp⟩ := expectStart_ok h1
           obtain ⟨mid, hm, hmt⟩ := expectEnd_ok h3
           exact ⟨pre, a, r, r', mid, r'', he, hp, h2, hm, hmt, expectEof_ok h4⟩
 
 theorem decodeField_ne' (X : Ext) {name tag : Bytes} (h : name ≠ tag) {pres : Pres} {shape : Shape} {s : Sch}
-    {rest : Flds} {evs : List Ev} {slot : FVal} {accRest : List FVal} :
-    decodeField X (.cons tag pres shape s rest) name evs (slot :: accRest)
-      = (match decodeField X rest name evs accRest with
+    {rest : Flds} {a : Bytes} {evs : List Ev} {slot : FVal} {accRest : List FVal} :
+    decodeField X (.cons tag pres shape s rest) name a evs (slot :: accRest)
+      = (match decodeField X rest name a evs accRest with
          | .error e => .error e
          | .ok (acc', r) => .ok (slot :: acc', r)) := by
-  cases shape <;> simp only [decodeField, if_neg h] <;> cases decodeField X rest name evs accRest <;> rfl
+  cases shape <;> simp only [decodeField, if_neg h] <;> cases decodeField X rest name a evs accRest <;> rfl
+
+/-- a member bound to an attribute has no arm: an element of its name goes on to the other members -/
+theorem decodeField_attr (X : Ext) {name tag : Bytes} {pres : Pres} {s : Sch}
+    {rest : Flds} {a : Bytes} {evs : List Ev} {slot : FVal} {accRest : List FVal} :
+    decodeField X (.cons tag pres .attr s rest) name a evs (slot :: accRest)
+      = (match decodeField X rest name a evs accRest with
+         | .error e => .error e
+         | .ok (acc', r) => .ok (slot :: acc', r)) := by
+  by_cases h : name = tag
+  · simp only [decodeField, if_pos h]
+    cases decodeField X rest name a evs accRest <;> rfl
+  · exact decodeField_ne' X h
 
 /-! ### clause: nothing but white space outside the root (code since d51737b)
 
@@ -285,8 +298,8 @@ theorem textLoop_consumes : ∀ (evs : List Ev) (single joined : Option Bytes) (
       · cases h
 
 /-- `for_each_element` takes complete elements (and the character data between them) when its callback does -/
-theorem forEach_consumes {α : Type} (f : Bytes → List Ev → α → R α)
-    (hf : ∀ n evs acc acc' r, f n evs acc = .ok (acc', r) → Consumes evs r) :
+theorem forEach_consumes {α : Type} (f : Bytes → Bytes → List Ev → α → R α)
+    (hf : ∀ n a evs acc acc' r, f n a evs acc = .ok (acc', r) → Consumes evs r) :
     ∀ (fuel : Nat) (evs : List Ev) (acc acc' : α) (rest : List Ev),
       forEach f fuel evs acc = .ok (acc', rest) → Consumes evs rest
   | 0, _, _, _, _, h => by simp [forEach] at h
@@ -296,7 +309,7 @@ theorem forEach_consumes {α : Type} (f : Bytes → List Ev → α → R α)
     split at h
     · rename_i n a r heq
       rw [heq] at hskip
-      cases hfr : f n r acc with
+      cases hfr : f n a r acc with
       | error e => simp [hfr] at h
       | ok p =>
         obtain ⟨acc1, r1⟩ := p
@@ -305,7 +318,7 @@ theorem forEach_consumes {α : Type} (f : Bytes → List Ev → α → R α)
         | error e => simp [hend] at h
         | ok r2 =>
           simp only [hend] at h
-          have h1 := hf n r acc acc1 r1 hfr
+          have h1 := hf n a r acc acc1 r1 hfr
           have h2 := Consumes.expectEnd hend
           have h3 := forEach_consumes f hf fuel r2 acc1 acc' rest h
           exact hskip.trans ((Consumes.elem (n := n) (a := a) (h1.trans h2)).trans h3)
@@ -314,11 +327,11 @@ theorem forEach_consumes {α : Type} (f : Bytes → List Ev → α → R α)
       cases h
       exact hskip
 
-theorem decode_scalar_inv (X : Ext) {s : Sch} {evs post : List Ev} {v : Val} (hs : isScalar s = true)
-    (h : decode X s evs = .ok (v, post)) : ∃ raw, textOf evs = .ok (raw, post) := by
+theorem decode_scalar_inv (X : Ext) {s : Sch} {a : Bytes} {evs post : List Ev} {v : Val} (hs : isScalar s = true)
+    (h : decode X s a evs = .ok (v, post)) : ∃ raw, textOf evs = .ok (raw, post) := by
   cases s <;> first
     | (simp [isScalar] at hs; done)
-    | (rw [decode.eq_3 X _ _ (by intros; contradiction) (by intros; contradiction)] at h
+    | (rw [decode.eq_3 X _ _ _ (by intros; contradiction) (by intros; contradiction)] at h
        cases ht : textOf evs with
        | error e => simp [ht] at h
        | ok p =>
@@ -328,38 +341,42 @@ theorem decode_scalar_inv (X : Ext) {s : Sch} {evs post : List Ev} {v : Val} (hs
          · cases h
          · cases h; exact ⟨raw, rfl⟩)
 
-theorem decode_scalar_consumes (X : Ext) {s : Sch} {evs post : List Ev} {v : Val} (hs : isScalar s = true)
-    (h : decode X s evs = .ok (v, post)) : Consumes evs post := by
+theorem decode_scalar_consumes (X : Ext) {s : Sch} {a : Bytes} {evs post : List Ev} {v : Val}
+    (hs : isScalar s = true) (h : decode X s a evs = .ok (v, post)) : Consumes evs post := by
   obtain ⟨raw, hr⟩ := decode_scalar_inv X hs h
   exact textLoop_consumes evs none none raw post hr
 
 mutual
   /-- **what a decoder takes from the event stream is a sequence of complete elements and character data** -/
-  theorem decode_consumes (X : Ext) : ∀ (s : Sch) (evs : List Ev) (v : Val) (post : List Ev),
-      decode X s evs = .ok (v, post) → Consumes evs post
-    | .struct fs, evs, v, post, h => by
+  theorem decode_consumes (X : Ext) : ∀ (s : Sch) (a : Bytes) (evs : List Ev) (v : Val) (post : List Ev),
+      decode X s a evs = .ok (v, post) → Consumes evs post
+    | .struct fs, a, evs, v, post, h => by
       rw [decode.eq_1] at h
       split at h
       · cases h; exact Consumes.refl _
-      · cases hl : forEach (fun name evs acc => decodeField X fs name evs acc) (evs.length + 1) evs fs.emptyAcc with
-        | error e => simp [hl] at h
-        | ok p =>
-          obtain ⟨acc, r⟩ := p
-          simp only [hl] at h
-          cases hfin : fs.finish acc with
-          | error e => simp [hfin] at h
-          | ok fvs =>
-            simp only [hfin] at h
-            cases h
-            exact forEach_consumes _ (fun n evs acc acc' r hh => decodeField_consumes X fs n evs acc acc' r hh)
-              _ _ _ _ _ hl
-    | .union vs, evs, v, post, h => by
+      · cases hi : fs.initAcc a with
+        | error e => simp [hi] at h
+        | ok acc0 =>
+          simp only [hi] at h
+          cases hl : forEach (fun name a evs acc => decodeField X fs name a evs acc) (evs.length + 1) evs acc0 with
+          | error e => simp [hl] at h
+          | ok p =>
+            obtain ⟨acc, r⟩ := p
+            simp only [hl] at h
+            cases hfin : fs.finish acc with
+            | error e => simp [hfin] at h
+            | ok fvs =>
+              simp only [hfin] at h
+              cases h
+              exact forEach_consumes _
+                (fun n a evs acc acc' r hh => decodeField_consumes X fs n a evs acc acc' r hh) _ _ _ _ _ hl
+    | .union vs, _, evs, v, post, h => by
       rw [decode.eq_2] at h
       have hskip := Consumes.skipText evs
       split at h
       · rename_i n a r heq
         rw [heq] at hskip
-        cases hv : decodeVariant X vs n r with
+        cases hv : decodeVariant X vs n a r with
         | error e => simp [hv] at h
         | ok p =>
           obtain ⟨v1, r1⟩ := p
@@ -369,88 +386,97 @@ mutual
           | ok r2 =>
             simp only [hend] at h
             cases h
-            have h1 := decodeVariant_consumes X vs n r v r1 hv
+            have h1 := decodeVariant_consumes X vs n a r v r1 hv
             exact hskip.trans (Consumes.elem (n := n) (a := a) (h1.trans (Consumes.expectEnd hend)))
       · cases h
       · cases h
-    | .str, _, _, _, h => decode_scalar_consumes X rfl h
-    | .enm, _, _, _, h => decode_scalar_consumes X rfl h
-    | .i32, _, _, _, h => decode_scalar_consumes X rfl h
-    | .i64, _, _, _, h => decode_scalar_consumes X rfl h
-    | .bool, _, _, _, h => decode_scalar_consumes X rfl h
-    | .ts _, _, _, _, h => decode_scalar_consumes X rfl h
-  theorem decodeField_consumes (X : Ext) : ∀ (fs : Flds) (name : Bytes) (evs : List Ev) (acc acc' : List FVal)
-      (r : List Ev), decodeField X fs name evs acc = .ok (acc', r) → Consumes evs r
-    | .nil, _, _, _, _, _, h => by simp [decodeField] at h
-    | .cons tag pres shape s rest, name, evs, [], _, _, h => by cases shape <;> simp [decodeField] at h
-    | .cons tag pres shape s rest, name, evs, slot :: accRest, acc', r, h => by
+    | .str, _, _, _, _, h => decode_scalar_consumes X rfl h
+    | .enm, _, _, _, _, h => decode_scalar_consumes X rfl h
+    | .i32, _, _, _, _, h => decode_scalar_consumes X rfl h
+    | .i64, _, _, _, _, h => decode_scalar_consumes X rfl h
+    | .bool, _, _, _, _, h => decode_scalar_consumes X rfl h
+    | .ts _, _, _, _, _, h => decode_scalar_consumes X rfl h
+  theorem decodeField_consumes (X : Ext) : ∀ (fs : Flds) (name a : Bytes) (evs : List Ev) (acc acc' : List FVal)
+      (r : List Ev), decodeField X fs name a evs acc = .ok (acc', r) → Consumes evs r
+    | .nil, _, _, _, _, _, _, h => by simp [decodeField] at h
+    | .cons tag pres shape s rest, name, a, evs, [], _, _, h => by cases shape <;> simp [decodeField] at h
+    | .cons tag pres shape s rest, name, a, evs, slot :: accRest, acc', r, h => by
+      have hskip : ∀ {x : List FVal × List Ev},
+          (match decodeField X rest name a evs accRest with
+            | .error e => (.error e : R (List FVal))
+            | .ok (acc', r) => .ok (slot :: acc', r)) = .ok x → Consumes evs x.2 := by
+        intro x hx
+        cases hd : decodeField X rest name a evs accRest with
+        | error e => simp [hd] at hx
+        | ok p =>
+          obtain ⟨a1, r1⟩ := p
+          simp only [hd] at hx
+          cases hx
+          exact decodeField_consumes X rest name a evs accRest a1 _ hd
       by_cases hn : name = tag
       · cases shape with
         | single =>
           simp only [decodeField, if_pos hn] at h
           split at h
-          · cases hd : decode X s evs with
+          · cases hd : decode X s a evs with
             | error e => simp [hd] at h
             | ok p =>
               obtain ⟨v, r1⟩ := p
               simp only [hd] at h
               cases h
-              exact decode_consumes X s evs v _ hd
+              exact decode_consumes X s a evs v _ hd
           · cases h
         | wrapped m =>
           simp only [decodeField, if_pos hn] at h
           split at h
-          · cases hd : forEach (listItem (fun evs => decode X s evs) m) (evs.length + 1) evs [] with
+          · cases hd : forEach (listItem (fun a evs => decode X s a evs) m) (evs.length + 1) evs [] with
             | error e => simp [hd] at h
             | ok p =>
               obtain ⟨l, r1⟩ := p
               simp only [hd] at h
               cases h
               refine forEach_consumes _ ?_ _ _ _ _ _ hd
-              intro n evs' l0 l1 r' hh
+              intro n a' evs' l0 l1 r' hh
               simp only [listItem] at hh
               split at hh
-              · cases hd' : decode X s evs' with
+              · cases hd' : decode X s a' evs' with
                 | error e => simp [hd'] at hh
                 | ok p' =>
                   obtain ⟨v', r''⟩ := p'
                   simp only [hd'] at hh
                   cases hh
-                  exact decode_consumes X s evs' v' _ hd'
+                  exact decode_consumes X s a' evs' v' _ hd'
               · cases hh
           · cases h
         | flat =>
           simp only [decodeField, if_pos hn] at h
-          cases hd : decode X s evs with
+          cases hd : decode X s a evs with
           | error e => simp [hd] at h
           | ok p =>
             obtain ⟨v, r1⟩ := p
             simp only [hd] at h
             cases h
-            exact decode_consumes X s evs v _ hd
+            exact decode_consumes X s a evs v _ hd
+        | attr =>
+          rw [decodeField_attr X] at h
+          exact hskip h
       · rw [decodeField_ne' X hn] at h
-        cases hd : decodeField X rest name evs accRest with
-        | error e => simp [hd] at h
-        | ok p =>
-          obtain ⟨a1, r1⟩ := p
-          simp only [hd] at h
-          cases h
-          exact decodeField_consumes X rest name evs accRest a1 _ hd
-  theorem decodeVariant_consumes (X : Ext) : ∀ (vars : Vars) (name : Bytes) (evs : List Ev) (v : Val) (r : List Ev),
-      decodeVariant X vars name evs = .ok (v, r) → Consumes evs r
-    | .nil, _, _, _, _, h => by simp [decodeVariant] at h
-    | .cons t s rest, name, evs, v, r, h => by
+        exact hskip h
+  theorem decodeVariant_consumes (X : Ext) : ∀ (vars : Vars) (name a : Bytes) (evs : List Ev) (v : Val)
+      (r : List Ev), decodeVariant X vars name a evs = .ok (v, r) → Consumes evs r
+    | .nil, _, _, _, _, _, h => by simp [decodeVariant] at h
+    | .cons t s rest, name, a, evs, v, r, h => by
       by_cases hn : name = t
       · simp only [decodeVariant, if_pos hn] at h
-        cases hd : decode X s evs with
+        cases hd : decode X s a evs with
         | error e => simp [hd] at h
         | ok p =>
           obtain ⟨v1, r1⟩ := p
           simp only [hd] at h
           cases h
-          exact decode_consumes X s evs v1 _ hd
+          exact decode_consumes X s a evs v1 _ hd
       · simp only [decodeVariant, if_neg hn] at h
-        exact decodeVariant_consumes X rest name evs v r h
+        exact decodeVariant_consumes X rest name a evs v r h
 end
 
 /-- **an accepted document has nothing but white space around its root element.** For every token sequence `q`
@@ -460,7 +486,7 @@ theorem decodeDoc_named_clean (X : Ext) {root : Bytes} {s : Sch} {q : List QEv} 
     (h : decodeDoc X (.named root) s (deEvents q) = .ok v) :
     ∃ pre a body post mid tail,
       deEvents q = pre ++ .start root a :: body ∧ pre.all Ev.isWsText = true ∧
-      decode X s body = .ok (v, post) ∧
+      decode X s a body = .ok (v, post) ∧
       post = mid ++ .stop root :: tail ∧ mid.all Ev.isText = true ∧ tail.all Ev.isWsText = true := by
   obtain ⟨pre, a, body, post, mid, tail, he, hp, hd, hm, hmt, ht⟩ := decodeDoc_named_ok X h
   have hclean : TopClean 0 (deEvents q) := deEventsAt_topClean q 0
@@ -472,7 +498,7 @@ theorem decodeDoc_named_clean (X : Ext) {root : Bytes} {s : Sch} {q : List QEv} 
       have := topClean_append pre _ 0 hclean
       rwa [depthAfter_texts pre 0 hp] at this
     have h2 : TopClean 1 body := by simpa [TopClean] using h1
-    have h3 : TopClean 1 post := topClean_consumes (decode_consumes X s body v post hd) h2
+    have h3 : TopClean 1 post := topClean_consumes (decode_consumes X s a body v post hd) h2
     rw [hm] at h3
     have h4 : TopClean 1 (.stop root :: tail) := by
       have := topClean_append mid _ 1 h3
@@ -483,73 +509,172 @@ theorem decodeDoc_named_clean (X : Ext) {root : Bytes} {s : Sch} {q : List QEv} 
 
 /-! ### clause: known elements -/
 
-/-- the element-name dispatch of a struct deserialiser succeeds only for a member's element name -/
-theorem decodeField_known (X : Ext) : ∀ (fs : Flds) (name : Bytes) (evs : List Ev) (acc : List FVal)
-    (r : List FVal × List Ev), decodeField X fs name evs acc = .ok r → name ∈ fs.tags
-  | .nil, _, _, _, _, h => by simp [decodeField] at h
-  | .cons tag pres shape s rest, name, evs, [], _, h => by cases shape <;> simp [decodeField] at h
-  | .cons tag pres shape s rest, name, evs, slot :: acc, r, h => by
-    by_cases hn : name = tag
-    · simp [Flds.tags, hn]
-    · have : ∃ r', decodeField X rest name evs acc = .ok r' := by
-        cases shape <;> simp only [decodeField, if_neg hn] at h <;>
-          (cases hd : decodeField X rest name evs acc with
-           | error e => simp [hd] at h
-           | ok r' => exact ⟨r', rfl⟩)
-      obtain ⟨r', hr'⟩ := this
-      have := decodeField_known X rest name evs acc r' hr'
-      simp [Flds.tags, this]
+/-- the element-name dispatch of a struct deserialiser succeeds only for the element name of a member that is read
+from child elements (`Flds.elemTags`: a member bound to an attribute is not one — a child element of its name is as
+unknown as any other) -/
+theorem decodeField_known (X : Ext) : ∀ (fs : Flds) (name a : Bytes) (evs : List Ev) (acc : List FVal)
+    (r : List FVal × List Ev), decodeField X fs name a evs acc = .ok r → name ∈ fs.elemTags
+  | .nil, _, _, _, _, _, h => by simp [decodeField] at h
+  | .cons tag pres shape s rest, name, a, evs, [], _, h => by cases shape <;> simp [decodeField] at h
+  | .cons tag pres shape s rest, name, a, evs, slot :: acc, r, h => by
+    have hrest : (∃ r', decodeField X rest name a evs acc = .ok r') → name ∈ (Flds.cons tag pres shape s rest).elemTags := by
+      intro ⟨r', hr'⟩
+      have := decodeField_known X rest name a evs acc r' hr'
+      simp [Flds.elemTags, this]
+    have hfall : (match decodeField X rest name a evs acc with
+          | .error e => (.error e : R (List FVal))
+          | .ok (acc', r) => .ok (slot :: acc', r)) = .ok r → ∃ r', decodeField X rest name a evs acc = .ok r' := by
+      intro hx
+      cases hd : decodeField X rest name a evs acc with
+      | error e => simp [hd] at hx
+      | ok r' => exact ⟨r', rfl⟩
+    cases shape with
+    | attr =>
+      rw [decodeField_attr X] at h
+      exact hrest (hfall h)
+    | single =>
+      by_cases hn : name = tag
+      · simp [Flds.elemTags, hn]
+      · rw [decodeField_ne' X hn] at h; exact hrest (hfall h)
+    | wrapped m =>
+      by_cases hn : name = tag
+      · simp [Flds.elemTags, hn]
+      · rw [decodeField_ne' X hn] at h; exact hrest (hfall h)
+    | flat =>
+      by_cases hn : name = tag
+      · simp [Flds.elemTags, hn]
+      · rw [decodeField_ne' X hn] at h; exact hrest (hfall h)
 
-theorem decodeVariant_known (X : Ext) : ∀ (vars : Vars) (name : Bytes) (evs : List Ev) (r : Val × List Ev),
-    decodeVariant X vars name evs = .ok r → name ∈ vars.tags
-  | .nil, _, _, _, h => by simp [decodeVariant] at h
-  | .cons t s rest, name, evs, r, h => by
+theorem decodeVariant_known (X : Ext) : ∀ (vars : Vars) (name a : Bytes) (evs : List Ev) (r : Val × List Ev),
+    decodeVariant X vars name a evs = .ok r → name ∈ vars.tags
+  | .nil, _, _, _, _, h => by simp [decodeVariant] at h
+  | .cons t s rest, name, a, evs, r, h => by
     by_cases hn : name = t
     · simp [Vars.tags, hn]
     · simp only [decodeVariant, if_neg hn] at h
-      have := decodeVariant_known X rest name evs r h
+      have := decodeVariant_known X rest name a evs r h
       simp [Vars.tags, this]
 
 /-! ### clause: no repeated single-valued member -/
 
-/-- the member an element name is dispatched to (the first one with that name), with its current slot -/
+/-- the member an element name is dispatched to (the first one with that name that is read from child elements),
+with its current slot -/
 def firstSlot : Flds → List FVal → Bytes → Option (Shape × FVal)
-  | .cons tag _ shape _ rest, slot :: acc, name => if name = tag then some (shape, slot) else firstSlot rest acc name
+  | .cons tag _ shape _ rest, slot :: acc, name =>
+    match shape with
+    | .attr => firstSlot rest acc name
+    | _ => if name = tag then some (shape, slot) else firstSlot rest acc name
   | _, _, _ => none
 
+theorem firstSlot_attr {tag : Bytes} {pres : Pres} {s : Sch} {rest : Flds} {slot : FVal} {acc : List FVal}
+    {name : Bytes} : firstSlot (.cons tag pres .attr s rest) (slot :: acc) name = firstSlot rest acc name := rfl
+
+theorem firstSlot_elem {tag : Bytes} {pres : Pres} {shape : Shape} {s : Sch} {rest : Flds} {slot : FVal}
+    {acc : List FVal} {name : Bytes} (hs : shape ≠ .attr) :
+    firstSlot (.cons tag pres shape s rest) (slot :: acc) name
+      = if name = tag then some (shape, slot) else firstSlot rest acc name := by
+  cases shape <;> first | rfl | exact absurd rfl hs
+
+theorem firstSlot_not_attr : ∀ (fs : Flds) (acc : List FVal) (name : Bytes) (shape : Shape) (slot : FVal),
+    firstSlot fs acc name = some (shape, slot) → shape ≠ .attr
+  | .nil, _, _, _, _, h => by simp [firstSlot] at h
+  | .cons _ _ _ _ _, [], _, _, _, h => by simp [firstSlot] at h
+  | .cons tag pres sh s rest, sl :: acc, name, shape, slot, h => by
+    cases sh with
+    | attr => exact firstSlot_not_attr rest acc name shape slot (by simpa [firstSlot] using h)
+    | single =>
+      rw [firstSlot_elem (by decide)] at h
+      split at h
+      · cases h; decide
+      · exact firstSlot_not_attr rest acc name shape slot h
+    | wrapped m =>
+      rw [firstSlot_elem (by intro e; cases e)] at h
+      split at h
+      · cases h; intro e; cases e
+      · exact firstSlot_not_attr rest acc name shape slot h
+    | flat =>
+      rw [firstSlot_elem (by decide)] at h
+      split at h
+      · cases h; decide
+      · exact firstSlot_not_attr rest acc name shape slot h
+
 /-- a second element for a member that is not a flattened list is refused -/
-theorem decodeField_repeated (X : Ext) : ∀ (fs : Flds) (acc : List FVal) (name : Bytes) (evs : List Ev)
+theorem decodeField_repeated (X : Ext) : ∀ (fs : Flds) (acc : List FVal) (name a : Bytes) (evs : List Ev)
     (shape : Shape) (slot : FVal), firstSlot fs acc name = some (shape, slot) → shape ≠ .flat →
-    slot.isAbsent = false → decodeField X fs name evs acc = .error .duplicateField
-  | .nil, _, _, _, _, _, h, _, _ => by simp [firstSlot] at h
-  | .cons _ _ _ _ _, [], _, _, _, _, h, _, _ => by simp [firstSlot] at h
-  | .cons tag pres sh s rest, sl :: acc, name, evs, shape, slot, h, hflat, habs => by
-    by_cases hn : name = tag
-    · simp only [firstSlot, if_pos hn] at h
-      cases h
-      subst hn
-      cases sh with
-      | single => simp [decodeField, habs]
-      | wrapped m => simp [decodeField, habs]
-      | flat => exact absurd rfl hflat
-    · simp only [firstSlot, if_neg hn] at h
-      have ih := decodeField_repeated X rest acc name evs shape slot h hflat habs
-      cases sh <;> simp [decodeField, hn, ih]
+    slot.isAbsent = false → decodeField X fs name a evs acc = .error .duplicateField
+  | .nil, _, _, _, _, _, _, h, _, _ => by simp [firstSlot] at h
+  | .cons _ _ _ _ _, [], _, _, _, _, _, h, _, _ => by simp [firstSlot] at h
+  | .cons tag pres sh s rest, sl :: acc, name, a, evs, shape, slot, h, hflat, habs => by
+    cases sh with
+    | attr =>
+      rw [firstSlot_attr] at h
+      rw [decodeField_attr X, decodeField_repeated X rest acc name a evs shape slot h hflat habs]
+    | single =>
+      rw [firstSlot_elem (by decide)] at h
+      by_cases hn : name = tag
+      · simp only [if_pos hn] at h; cases h; subst hn; simp [decodeField, habs]
+      · simp only [if_neg hn] at h
+        rw [decodeField_ne' X hn, decodeField_repeated X rest acc name a evs shape slot h hflat habs]
+    | wrapped m =>
+      rw [firstSlot_elem (by intro e; cases e)] at h
+      by_cases hn : name = tag
+      · simp only [if_pos hn] at h; cases h; subst hn; simp [decodeField, habs]
+      · simp only [if_neg hn] at h
+        rw [decodeField_ne' X hn, decodeField_repeated X rest acc name a evs shape slot h hflat habs]
+    | flat =>
+      rw [firstSlot_elem (by decide)] at h
+      by_cases hn : name = tag
+      · simp only [if_pos hn] at h; cases h; exact absurd rfl hflat
+      · simp only [if_neg hn] at h
+        rw [decodeField_ne' X hn, decodeField_repeated X rest acc name a evs shape slot h hflat habs]
+
+/-- what a dispatch that falls through to the other members yields -/
+theorem decodeField_fall {X : Ext} {rest : Flds} {name a : Bytes} {evs : List Ev} {sl : FVal} {acc acc' : List FVal}
+    {r : List Ev}
+    (h : (match decodeField X rest name a evs acc with
+          | .error e => (.error e : R (List FVal))
+          | .ok (acc', r) => .ok (sl :: acc', r)) = .ok (acc', r)) :
+    ∃ a'', decodeField X rest name a evs acc = .ok (a'', r) ∧ acc' = sl :: a'' := by
+  cases hd : decodeField X rest name a evs acc with
+  | error e => simp [hd] at h
+  | ok p =>
+    obtain ⟨a'', r''⟩ := p
+    simp only [hd] at h
+    cases h
+    exact ⟨a'', rfl, rfl⟩
 
 /-- after a successful dispatch the member's slot is filled … -/
-theorem decodeField_fills (X : Ext) : ∀ (fs : Flds) (acc : List FVal) (name : Bytes) (evs : List Ev)
-    (acc' : List FVal) (r : List Ev), decodeField X fs name evs acc = .ok (acc', r) →
+theorem decodeField_fills (X : Ext) : ∀ (fs : Flds) (acc : List FVal) (name a : Bytes) (evs : List Ev)
+    (acc' : List FVal) (r : List Ev), decodeField X fs name a evs acc = .ok (acc', r) →
     ∃ shape slot, firstSlot fs acc' name = some (shape, slot) ∧ slot.isAbsent = false
-  | .nil, _, _, _, _, _, h => by simp [decodeField] at h
-  | .cons tag pres sh s rest, [], name, evs, _, _, h => by cases sh <;> simp [decodeField] at h
-  | .cons tag pres sh s rest, sl :: acc, name, evs, acc', r, h => by
+  | .nil, _, _, _, _, _, _, h => by simp [decodeField] at h
+  | .cons tag pres sh s rest, [], name, a, evs, _, _, h => by cases sh <;> simp [decodeField] at h
+  | .cons tag pres sh s rest, sl :: acc, name, a, evs, acc', r, h => by
+    have hfall : ∀ (hs : sh = .attr ∨ name ≠ tag),
+        (match decodeField X rest name a evs acc with
+          | .error e => (.error e : R (List FVal))
+          | .ok (acc', r) => .ok (sl :: acc', r)) = .ok (acc', r) →
+        ∃ shape slot, firstSlot (.cons tag pres sh s rest) acc' name = some (shape, slot) ∧ slot.isAbsent = false := by
+      intro hs hx
+      obtain ⟨a'', h1, h2⟩ := decodeField_fall hx
+      obtain ⟨shape, slot, hfs, ha⟩ := decodeField_fills X rest acc name a evs a'' r h1
+      refine ⟨shape, slot, ?_, ha⟩
+      subst h2
+      rcases hs with hs | hs
+      · subst hs; rw [firstSlot_attr]; exact hfs
+      · cases sh with
+        | attr => rw [firstSlot_attr]; exact hfs
+        | single => rw [firstSlot_elem (by decide), if_neg hs]; exact hfs
+        | wrapped m => rw [firstSlot_elem (by intro e; cases e), if_neg hs]; exact hfs
+        | flat => rw [firstSlot_elem (by decide), if_neg hs]; exact hfs
     by_cases hn : name = tag
-    · subst hn
-      cases sh with
+    · cases sh with
+      | attr => rw [decodeField_attr X] at h; exact hfall (Or.inl rfl) h
       | single =>
+        subst hn
         simp only [decodeField, if_true] at h
         split at h
-        · cases hd : decode X s evs with
+        · cases hd : decode X s a evs with
           | error e => simp [hd] at h
           | ok p =>
             simp only [hd] at h
@@ -557,9 +682,10 @@ theorem decodeField_fills (X : Ext) : ∀ (fs : Flds) (acc : List FVal) (name : 
             exact ⟨.single, .one p.1, by simp [firstSlot], rfl⟩
         · cases h
       | wrapped m =>
+        subst hn
         simp only [decodeField, if_true] at h
         split at h
-        · cases hd : forEach (listItem (fun evs => decode X s evs) m) (evs.length + 1) evs [] with
+        · cases hd : forEach (listItem (fun a evs => decode X s a evs) m) (evs.length + 1) evs [] with
           | error e => simp [hd] at h
           | ok p =>
             simp only [hd] at h
@@ -567,86 +693,98 @@ theorem decodeField_fills (X : Ext) : ∀ (fs : Flds) (acc : List FVal) (name : 
             exact ⟨.wrapped m, .many p.1, by simp [firstSlot], rfl⟩
         · cases h
       | flat =>
+        subst hn
         simp only [decodeField, if_true] at h
-        cases hd : decode X s evs with
+        cases hd : decode X s a evs with
         | error e => simp [hd] at h
         | ok p =>
           simp only [hd] at h
           cases h
           refine ⟨.flat, sl.push p.1, by simp [firstSlot], ?_⟩
           cases sl <;> rfl
-    · have : ∃ a'', decodeField X rest name evs acc = .ok (a'', r) ∧ acc' = sl :: a'' := by
-        cases sh <;> simp only [decodeField, if_neg hn] at h <;>
-          (cases hd : decodeField X rest name evs acc with
-           | error e => simp [hd] at h
-           | ok p =>
-             obtain ⟨a'', r''⟩ := p
-             simp only [hd] at h
-             cases h
-             exact ⟨a'', rfl, rfl⟩)
-      obtain ⟨a'', h1, h2⟩ := this
-      obtain ⟨shape, slot, hs, ha⟩ := decodeField_fills X rest acc name evs a'' r h1
-      exact ⟨shape, slot, by simp [h2, firstSlot, hn, hs], ha⟩
+    · rw [decodeField_ne' X hn] at h
+      exact hfall (Or.inr hn) h
 
 /-- … and no dispatch ever empties a filled slot (so the slot is still filled when the name comes again) -/
-theorem decodeField_keeps (X : Ext) : ∀ (fs : Flds) (acc : List FVal) (name : Bytes) (evs : List Ev)
-    (acc' : List FVal) (r : List Ev), decodeField X fs name evs acc = .ok (acc', r) →
+theorem decodeField_keeps (X : Ext) : ∀ (fs : Flds) (acc : List FVal) (name a : Bytes) (evs : List Ev)
+    (acc' : List FVal) (r : List Ev), decodeField X fs name a evs acc = .ok (acc', r) →
     ∀ (name' : Bytes) (shape : Shape) (slot : FVal), firstSlot fs acc name' = some (shape, slot) →
       slot.isAbsent = false → ∃ slot', firstSlot fs acc' name' = some (shape, slot') ∧ slot'.isAbsent = false
-  | .nil, _, _, _, _, _, h => by simp [decodeField] at h
-  | .cons tag pres sh s rest, [], name, evs, _, _, h => by cases sh <;> simp [decodeField] at h
-  | .cons tag pres sh s rest, sl :: acc, name, evs, acc', r, h => by
+  | .nil, _, _, _, _, _, _, h => by simp [decodeField] at h
+  | .cons tag pres sh s rest, [], name, a, evs, _, _, h => by cases sh <;> simp [decodeField] at h
+  | .cons tag pres sh s rest, sl :: acc, name, a, evs, acc', r, h => by
     intro name' shape slot hfs habs
-    by_cases hn : name = tag
-    · -- the head slot is rewritten: it was absent (single / wrapped) or is pushed to (flat); the others are unchanged
-      subst hn
-      have hhead : ∃ sl', acc' = sl' :: acc ∧ (sl.isAbsent = false → sl'.isAbsent = false) := by
-        cases sh with
-        | single =>
-          simp only [decodeField, if_true] at h
-          split at h
-          · rename_i ha
-            cases hd : decode X s evs with
-            | error e => simp [hd] at h
-            | ok p => simp only [hd] at h; cases h; exact ⟨_, rfl, fun hc => by simp [ha] at hc⟩
-          · cases h
-        | wrapped m =>
-          simp only [decodeField, if_true] at h
-          split at h
-          · rename_i ha
-            cases hd : forEach (listItem (fun evs => decode X s evs) m) (evs.length + 1) evs [] with
-            | error e => simp [hd] at h
-            | ok p => simp only [hd] at h; cases h; exact ⟨_, rfl, fun hc => by simp [ha] at hc⟩
-          · cases h
-        | flat =>
-          simp only [decodeField, if_true] at h
-          cases hd : decode X s evs with
-          | error e => simp [hd] at h
-          | ok p => simp only [hd] at h; cases h; exact ⟨_, rfl, fun _ => by cases sl <;> rfl⟩
-      obtain ⟨sl', he, hk⟩ := hhead
+    -- the dispatch goes on to the other members: this member's slot stays as it is
+    have hfall : (match decodeField X rest name a evs acc with
+          | .error e => (.error e : R (List FVal))
+          | .ok (acc', r) => .ok (sl :: acc', r)) = .ok (acc', r) →
+        ∃ slot', firstSlot (.cons tag pres sh s rest) acc' name' = some (shape, slot') ∧ slot'.isAbsent = false := by
+      intro hx
+      obtain ⟨a'', h1, h2⟩ := decodeField_fall hx
+      subst h2
+      have ih := decodeField_keeps X rest acc name a evs a'' r h1 name' shape slot
+      cases sh with
+      | attr => rw [firstSlot_attr] at hfs ⊢; exact ih hfs habs
+      | single =>
+        rw [firstSlot_elem (by decide)] at hfs ⊢
+        by_cases hn' : name' = tag
+        · simp only [if_pos hn'] at hfs ⊢; exact ⟨slot, hfs, habs⟩
+        · simp only [if_neg hn'] at hfs ⊢; exact ih hfs habs
+      | wrapped m =>
+        rw [firstSlot_elem (by intro e; cases e)] at hfs ⊢
+        by_cases hn' : name' = tag
+        · simp only [if_pos hn'] at hfs ⊢; exact ⟨slot, hfs, habs⟩
+        · simp only [if_neg hn'] at hfs ⊢; exact ih hfs habs
+      | flat =>
+        rw [firstSlot_elem (by decide)] at hfs ⊢
+        by_cases hn' : name' = tag
+        · simp only [if_pos hn'] at hfs ⊢; exact ⟨slot, hfs, habs⟩
+        · simp only [if_neg hn'] at hfs ⊢; exact ih hfs habs
+    -- the head slot is rewritten: it was absent (single / wrapped) or is pushed to (flat); the others are unchanged
+    have hhit : ∀ (hsh : sh ≠ .attr) (sl' : FVal), acc' = sl' :: acc → (sl.isAbsent = false → sl'.isAbsent = false) →
+        name = tag →
+        ∃ slot', firstSlot (.cons tag pres sh s rest) acc' name' = some (shape, slot') ∧ slot'.isAbsent = false := by
+      intro hsh sl' he hk hn
       subst he
-      by_cases hn' : name' = name
-      · simp only [firstSlot, if_pos hn'] at hfs ⊢
+      rw [firstSlot_elem hsh] at hfs ⊢
+      by_cases hn' : name' = tag
+      · simp only [if_pos hn'] at hfs ⊢
         cases hfs
         exact ⟨sl', rfl, hk habs⟩
-      · simp only [firstSlot, if_neg hn'] at hfs ⊢
+      · simp only [if_neg hn'] at hfs ⊢
         exact ⟨slot, hfs, habs⟩
-    · have : ∃ a'', decodeField X rest name evs acc = .ok (a'', r) ∧ acc' = sl :: a'' := by
-        cases sh <;> simp only [decodeField, if_neg hn] at h <;>
-          (cases hd : decodeField X rest name evs acc with
-           | error e => simp [hd] at h
-           | ok p =>
-             obtain ⟨a'', r''⟩ := p
-             simp only [hd] at h
-             cases h
-             exact ⟨a'', rfl, rfl⟩)
-      obtain ⟨a'', h1, h2⟩ := this
-      subst h2
-      by_cases hn' : name' = tag
-      · simp only [firstSlot, if_pos hn'] at hfs ⊢
-        exact ⟨slot, hfs, habs⟩
-      · simp only [firstSlot, if_neg hn'] at hfs ⊢
-        exact decodeField_keeps X rest acc name evs a'' r h1 name' shape slot hfs habs
+    by_cases hn : name = tag
+    · cases sh with
+      | attr => rw [decodeField_attr X] at h; exact hfall h
+      | single =>
+        simp only [decodeField, if_pos hn] at h
+        split at h
+        · rename_i ha
+          cases hd : decode X s a evs with
+          | error e => simp [hd] at h
+          | ok p =>
+            simp only [hd] at h; cases h
+            exact hhit (by decide) _ rfl (fun hc => by simp [ha] at hc) hn
+        · cases h
+      | wrapped m =>
+        simp only [decodeField, if_pos hn] at h
+        split at h
+        · rename_i ha
+          cases hd : forEach (listItem (fun a evs => decode X s a evs) m) (evs.length + 1) evs [] with
+          | error e => simp [hd] at h
+          | ok p =>
+            simp only [hd] at h; cases h
+            exact hhit (by intro e; cases e) _ rfl (fun hc => by simp [ha] at hc) hn
+        · cases h
+      | flat =>
+        simp only [decodeField, if_pos hn] at h
+        cases hd : decode X s a evs with
+        | error e => simp [hd] at h
+        | ok p =>
+          simp only [hd] at h; cases h
+          exact hhit (by decide) _ rfl (fun _ => by cases sl <;> rfl) hn
+    · rw [decodeField_ne' X hn] at h
+      exact hfall h
 
 /-! ### clause: required members present -/
 
@@ -680,25 +818,30 @@ theorem finish_required : ∀ (fs : Flds) (acc v : List FVal), fs.finish acc = .
         | one x => simp at h; subst h; exact ⟨fun hc => (by cases hc), ih⟩
         | many xs => simp at h; subst h; exact ⟨fun hc => (by cases hc), ih⟩
 
-/-- a struct is accepted only with all its required members -/
-theorem decode_struct_required (X : Ext) {fs : Flds} {evs rest : List Ev} {v : Val}
-    (h : decode X (.struct fs) evs = .ok (v, rest)) : ∃ fvs, v = .struct fvs ∧ ReqPresent fs fvs := by
+/-- a struct is accepted only with all its required members — those read from child elements and those bound to
+attributes alike -/
+theorem decode_struct_required (X : Ext) {fs : Flds} {a : Bytes} {evs rest : List Ev} {v : Val}
+    (h : decode X (.struct fs) a evs = .ok (v, rest)) : ∃ fvs, v = .struct fvs ∧ ReqPresent fs fvs := by
   rw [decode.eq_1] at h
   split at h
   · cases h
     cases fs with
     | nil => exact ⟨[], rfl, by simp [ReqPresent]⟩
     | cons _ _ _ _ _ => rename_i hn; simp [Flds.isNil] at hn
-  · cases hl : forEach (fun name evs acc => decodeField X fs name evs acc) (evs.length + 1) evs fs.emptyAcc with
-    | error e => simp [hl] at h
-    | ok p =>
-      obtain ⟨acc, r⟩ := p
-      simp only [hl] at h
-      cases hf : fs.finish acc with
-      | error e => simp [hf] at h
-      | ok fvs =>
-        simp only [hf] at h
-        cases h
-        exact ⟨fvs, rfl, finish_required fs acc fvs hf⟩
+  · cases hi : fs.initAcc a with
+    | error e => simp [hi] at h
+    | ok acc0 =>
+      simp only [hi] at h
+      cases hl : forEach (fun name a evs acc => decodeField X fs name a evs acc) (evs.length + 1) evs acc0 with
+      | error e => simp [hl] at h
+      | ok p =>
+        obtain ⟨acc, r⟩ := p
+        simp only [hl] at h
+        cases hf : fs.finish acc with
+        | error e => simp [hf] at h
+        | ok fvs =>
+          simp only [hf] at h
+          cases h
+          exact ⟨fvs, rfl, finish_required fs acc fvs hf⟩
 
 end S3V.Xml
